@@ -7,6 +7,7 @@ use std::io::{BufRead, BufReader, BufWriter, Write};
 use std::panic::{AssertUnwindSafe, catch_unwind};
 
 mod cache;
+mod codec;
 mod groups;
 
 fn classify(msg: &str) -> &'static str {
